@@ -403,7 +403,7 @@ Section RenameExecute.
     rewrite IH. unfold rename_keys at 3. rewrite map_app. f_equal.
     rewrite (assoc_rename_keys sg sg_inj). destruct (assoc (vd_name vd) sup); [reflexivity |].
     destruct (vd_default vd) as [dv |]; simpl; [| reflexivity].
-    pose proof (lit_json_rename sg sg_inj [] dv) as H. simpl in H. rewrite H.
+    pose proof (lit_json_rename sg sg_inj [] dv) as H. change (rename_keys sg []) with (@nil (bytes * json)) in H. rewrite H.
     destruct (lit_json [] dv); reflexivity.
   Qed.
 
